@@ -150,6 +150,15 @@ def roundtrip_part(ctx, binary):
             ops.append("rt %d %s" % (ln % 2, tree_op({"t": "e", "n": [97], "a": [{"k": [120], "v": val}, {"k": [121], "v": mixed}], "c": []})))
             if ch != 10:
                 ops.append("rt %d %s" % (ln % 2, tree_op({"t": "e", "n": [97], "a": [], "c": [{"t": "t", "v": [120] + val}]})))
+    # text nodes whose first non-blank character is not the start of a token of the tag syntax ('/', quotes, '=', '>'), with
+    # leading white space (the parser looks ahead for a tag with white space skipped, and has to come back)
+    for lead in ([], [32], [10, 9], [32, 32]):
+        for first in ([47, 117, 115, 114], [47], [47, 62], [34, 120], [39, 116, 105, 115], [61, 49], [62, 62]):
+            for tail in ([], [32]):
+                txt = lead + first + tail
+                for ctxt in ([{"t": "t", "v": txt}], [{"t": "e", "n": [98], "a": [], "c": []}, {"t": "t", "v": txt}],
+                             [{"t": "t", "v": txt}, {"t": "e", "n": [98], "a": [], "c": []}]):
+                    ops.append("rt %d %s" % (len(ops) % 2, tree_op({"t": "e", "n": [97], "a": [], "c": ctxt})))
     base.check_stateless(ctx, binary, ops, "roundtrip", "XmlSyntaxTrace", "XmlSyntaxTrace.cfg", key_of, per_exec=500)
 
 
